@@ -45,10 +45,12 @@ package ecs
 //@   ensures  rows-same: s.tables[table].len == old(s.tables[table].len) + 1 && rowEnt(&s.tables[table])[old(s.tables[table].len)] == result0
 //@        && (forall r uint32 :: __trigger(rowEnt(&s.tables[table])[r]) && (r < old(s.tables[table].len) ==> rowEnt(&s.tables[table])[r] == old(rowEnt(&s.tables[table])[r])))
 //@   ensures  index-kept: len(s.tables) == old(len(s.tables)) && (forall i uint32 :: __trigger(s.entities[i].row) && (uint64(i) < uint64(old(len(s.entities))) && entityID(i) != result0.id ==> s.entities[i] == old(s.entities[i])))
-//@   ensures  inv: indexInv(s)
 //@   ensures  fresh: !old(epIssued(&s.entityPool)[result0]) && epIssued(&s.entityPool)[result0] && alive(&s.entityPool, result0)
 //@   ensures  placed: s.entities[result0.id].table == table && s.entities[result0.id].row == result1 && result1 == old(s.tables[table].len)
 //@   ensures  others: forall h Entity :: h.id != result0.id ==> alive(&s.entityPool, h) == old(alive(&s.entityPool, h))
+//@   ensures  lens: len(s.entities) == len(s.entityPool.entities) && len(s.isTarget) == len(s.entities) && (len(s.entities) == old(len(s.entities)) || (len(s.entities) == old(len(s.entities)) + 1 && int(result0.id) == old(len(s.entities))))
+//@   ensures  live-old: forall i uint32 :: __trigger(epRank(&s.entityPool)[i]) && (uint64(i) < uint64(len(s.entityPool.entities)) && entityID(i) != result0.id ==> uint64(i) < uint64(old(len(s.entities))) && epRank(&s.entityPool)[i] == old(epRank(&s.entityPool)[i]) && s.entityPool.entities[i] == old(s.entityPool.entities[i]))
+//@   ensures  inv: indexInv(s)
 //@   ensures  count: *epAlive(&s.entityPool) == old(*epAlive(&s.entityPool)) + 1
 //@   ensures  tables: len(s.tables) == old(len(s.tables))
 
